@@ -33,7 +33,7 @@ LEVEL = "exploration"
 EXHAUSTIVE = True
 ENGINE = "direct"
 TECHNIQUE = "exhaustive enumeration of the ALPN decision table + real in-memory handshakes"
-BUDGET = {"quick": (1_200, 18), "thorough": (12_000, 200)}
+BUDGET = {"quick": (1_200, 18), "thorough": (6_000, 200)}
 WORKERS = {"quick": 2, "thorough": 16}
 REQUIRED = ["callback.offered_or_none", "callback.upstream_or_none", "callback.no_h2_when_disabled",
             "callback.outer_http11_only", "callback.selected_some", "handshake.oracle", "handshake.selected_some"]
